@@ -1014,12 +1014,14 @@ def addmul_cell(case):
     elif sub == 'k2m':
         pts = reps[:4]
         mm = [(ml[x], ml[y]) for x in range(len(ml)) for y in range(len(ml)) if (x, y) != (0, 0)]
+        if case.get('tier') != 'thorough':
+            mm = [(a, b) for a, b in mm if abs(ml.index(a) - ml.index(b)) == 1 or (a, b) in ((ml[0], ml[-1]), (ml[-1], ml[0]), (ml[-1], ml[-1]))]
         jobs = ([(i, val(a, m1, 'top'), m1), (j, val(b, m2, 'mid' if (m1 + m2) % 2 else 'top'), m2)]
                 for i in pts for j in pts for (m1, m2) in mm for a in S[1:] for b in S[:7])
     elif sub == 'k3':
         pts = reps[:4]
-        S3 = [0, 1, N - 1, N, N + 1, S[-1]]
-        m3 = [(1, 1, 1), (ml[0], ml[1], ml[-1]), (ml[-1], ml[0], ml[2])]
+        S3 = [0, 1, N - 1, N, N + 1, S[-1]] if case.get('tier') == 'thorough' else [0, 1, N - 1, N + 1, S[-1]]
+        m3 = [(1, 1, 1), (ml[0], ml[1], ml[-1]), (ml[-1], ml[0], ml[2])] if case.get('tier') == 'thorough' else [(1, 1, 1), (ml[-1], ml[0], ml[1])]
         jobs = ([(i, val(a, ma, 'top'), ma), (j, val(b, mb, 'top'), mb), (l, val(d, md, 'mid'), md)]
                 for i in pts for j in pts for l in pts for (ma, mb, md) in m3 for a in S3 for b in S3 for d in S3)
     am = AddMul(c)
@@ -1046,7 +1048,7 @@ def addmul_cell(case):
 
 def addmul_cases(cfg, cid, spec, nU, tier):
     subs = ['k1', 'k1m', 'k2', 'k2m', 'k3']
-    return [{'kind': 'addmul', 'cfg': cfg, 'cid': cid, 'spec': spec, 'sub': s} for s in subs]
+    return [{'kind': 'addmul', 'cfg': cfg, 'cid': cid, 'spec': spec, 'sub': s, 'tier': tier} for s in subs]
 
 # ------------------------------------------------------------------------------------------------ on-curve predicate
 def ison_sweep_cell(case):
@@ -1086,6 +1088,10 @@ def ison_violation(c, rx, ry, got, want):
     cls = 'x>=p' if (c.fam != 'ec2' and rx >= lim) else 'y>=p' if (c.fam != 'ec2' and ry >= lim) else \
           'outside GF(2^m)' if (c.fam == 'ec2' and (rx >= lim or ry >= lim)) else ('on curve' if want else 'off curve')
     fn = 'ec2IsOnA' if c.fam == 'ec2' else 'ecpIsOnA'
+    if got == 2:
+        cls = 'stack-overrun'
+    elif c.fam == 'ec2' and (rx >= lim or ry >= lim) and max(rx, ry) < 2 * lim:
+        cls = 'degree m word accepted'
     key = '%s:%s' % (fn, cls)
     rec = {'cfg': c.cfg, 'kind': 'ison', 'spec': list(c.spec), 'rx': hex(rx), 'ry': hex(ry)}
     msg = '%s(raw words x=%#x, y=%#x) [%s, cfg %s] returned %s, the curve equation / field membership gives %d' % (
@@ -1134,6 +1140,21 @@ def ison_points(c, pts, extra_x=()):
             out += [(size, ry), (rx, size)]
     return list(dict.fromkeys(out))
 
+def ec2_noncanon(c, limit=3):
+    """raw pairs that are congruent to a curve point but are NOT field elements: x + f(x) has degree m yet is numerically
+    below the modulus word f, which is what a comparison with the modulus instead of a degree test lets through"""
+    f = c.F.f
+    m = c.F.m
+    low = f ^ (1 << m)
+    hb = 1 << (low.bit_length() - 1)
+    out = []
+    x = hb
+    while x < 2 * hb and len(out) < limit:
+        for P in c.E.lift_x(x)[:1]:
+            out.append((raw_of(c, P[0]) ^ f, raw_of(c, P[1])))
+        x += 1
+    return out
+
 def ison_cell(case):
     """on-curve predicate pointwise (multi-word fields): candidates derived from the closed point set / boundary points"""
     c = get_ctx(case['cfg'], case['spec'])
@@ -1143,6 +1164,11 @@ def ison_cell(case):
     else:
         pts = [tuple(P) for P in case['pts']]
     cand = ison_points(c, pts)
+    if c.fam == 'ec2':
+        cand += ec2_noncanon(c)
+        f = c.F.f; hb = 1 << ((f ^ (1 << c.F.m)).bit_length() - 1)
+        if c.spec[3] == c.F.sqr(hb | 1):
+            cand += [(0, hb | 1), (0, (hb | 1) ^ f)]          # the point (0, sqrt(B)) and its non-canonical twin in y
     if c.fam != 'ec2' and c.E.is_on((0, 0)) is False:
         cand.append((0, 0))
     viol, calls = [], 0
@@ -1442,7 +1468,7 @@ def std_cell(case):
         parts['addmul'] = parts.get('addmul', 0) + calls - n0
         # (d) on-curve predicate, SWU
         n0 = calls
-        for rx, ry in ison_points(c, pts):
+        for rx, ry in ison_points(c, pts) + (ec2_noncanon(c) if binary else []):
             want = ison_expected(c, rx, ry)
             with vf.Arena(L) as T:
                 got = ison_call(c, T, rx, ry)
@@ -1464,7 +1490,11 @@ CELLS = {'group': group_cell, 'scalar': scalar_cell, 'addmul': addmul_cell, 'iso
 def run_cell(case):
     if 'tjob' in case and case['cid'] not in TABLES:
         TABLES[case['cid']] = build_table(case['tjob'])
-    return CELLS[case['kind']](case)
+    import time
+    t0 = time.time()
+    r = CELLS[case['kind']](case)
+    r['dt'] = time.time() - t0
+    return r
 
 def cell_name(case):
     k = case['kind']
@@ -1544,17 +1574,17 @@ def all_cases(tier, tables_out):
         for cfg in cfgs:
             W = 8 if cfg == 'rel' else 4
             new = []
-            full = (bits <= 64 and nU <= 300) or nU <= 100
+            full = bits <= 64 and nU <= 300
             gc = group_cases(cfg, cid, spec, nU, tier)
             for g in gc:
                 if len(g['lpairs']) == 16 and not full:
-                    g['lpairs'] = DIAG_LP
+                    g['lpairs'] = DIAG_LP if nU > 100 or tier == 'quick' else DIAG_LP + [(0, 1), (1, 0), (2, 2), (3, 3)]
                 if nU > 1500:
                     g['lpairs'] = g['lpairs'][:2] if len(g['lpairs']) > 2 else g['lpairs']
             new += gc
             if spec[0] == 'p' and bits <= 64 and not cid.startswith('mw:'):
                 new += scalar_cases(cfg, cid, spec, nU, tier, W)
-                light = tier == 'quick' and tiny and (a_index(cid) % 3 != 0)
+                light = tier == 'quick' and (a_index(cid) % 3 != 0)
                 new += [x for x in addmul_cases(cfg, cid, spec, nU, tier) if not (light and x['sub'] in ('k2m', 'k3'))]
                 new.append({'kind': 'isonsweep', 'cfg': cfg, 'cid': cid, 'spec': spec})
             else:
@@ -1578,6 +1608,15 @@ def all_cases(tier, tables_out):
         r = ref_params(fam, name)
         bits = r['poly'][0] if fam == 'dstu' else r['p'].bit_length()
         cases.append({'kind': 'std', 'fam': fam, 'name': name, 'tier': tier, 'cfgs': list(CFGS), 'bits': bits})
+    seen = set()
+    for cid, spec, job, cfgs in ec2_jobs(tier):
+        poly = spec[1]
+        if poly in seen:
+            continue
+        seen.add(poly)
+        F = field2(poly); hb = 1 << ((F.f ^ (1 << F.m)).bit_length() - 1)
+        for cfg in cfgs:
+            cases.append({'kind': 'ison', 'cfg': cfg, 'spec': ('2', poly, 1, F.sqr(hb | 1)), 'pts': [[0, hb | 1]], 'nU': 10, 'bits': poly[0]})
     tables_out.extend(info)
     return cases
 
@@ -1606,6 +1645,9 @@ def run(tier):
     for case, r in zip(cases, res):
         name = cell_name(case)
         kind = case['kind'] if case['kind'] != 'scalar' else ('ecMulA' if case['mode'] == 0 else 'ecHasOrderA')
+        cls = (case.get('cid') or 'x').split(':')[0]
+        cls = {'small': 'small_p%s' % (case.get('cid') or '::').split(':')[1][2:], 'mw': 'multiword', 'sf': 'gf2_subfield'}.get(cls, '')
+        part = kind + (':' + case['sub'] if 'sub' in case else '') + (':' + cls if cls else '')
         if 'calls' not in r:
             txt = (r.get('stderr') or r.get('harness_error') or '')[-700:]
             what = r.get('crash') or 'harness error'
@@ -1614,8 +1656,8 @@ def run(tier):
             chk.violation(key, {'cfg': case.get('cfg', 'rel'), 'kind': 'cell', 'case': jcase(case)},
                           'cell %s (cfg %s): the process executing it died / failed: %s\n%s' % (name, case.get('cfg'), what, txt))
             continue
-        k = kinds.setdefault(kind, [0, 0])
-        k[0] += 1; k[1] += r['calls']
+        k = kinds.setdefault(part, [0, 0, 0.0])
+        k[0] += 1; k[1] += r['calls']; k[2] += r.get('dt', 0)
         if 'width' in r:
             widths.add((case['cfg'], r['width']))
         chk.outcome('%s ok' % kind if not r['viol'] else '%s VIOLATION' % kind)
@@ -1623,8 +1665,8 @@ def run(tier):
             chk.outcome('tpl absent (ec2 table)')
         for key, rec, msg in r['viol']:
             chk.violation(key, rec, msg)
-    for kind, (ncell, ncalls) in sorted(kinds.items()):
-        chk.part(kind, states=ncell, transitions=ncalls, traces_validated_against_impl=ncalls, evaluations=ncalls)
+    for kind, (ncell, ncalls, dt) in sorted(kinds.items()):
+        chk.part(kind, states=ncell, transitions=ncalls, traces_validated_against_impl=ncalls, evaluations=ncalls, cpu_s=round(dt, 1))
     chk.part('closed_point_sets', curves=len(info), distinct_nontrivial=len(info))
     for x in info[:3] + info[len(info) // 2:len(info) // 2 + 2] + info[-3:]:
         chk.sample(x)
